@@ -257,7 +257,7 @@ func visitInstr(fr *frame, instr ssa.Instruction) continuation {
 		fr.env[instr] = &smap{keyType: instr.Type().Underlying().(*types.Map).Key()}
 
 	case *ssa.Range:
-		fr.env[instr] = rangeIter(fr.get(instr.X), instr.X.Type())
+		fr.env[instr] = rangeIter(fr, fr.get(instr.X), instr.X.Type())
 
 	case *ssa.Next:
 		fr.env[instr] = fr.get(instr.Iter).(iter).next(fr)
@@ -487,6 +487,9 @@ func call(p *Path, caller *frame, callpos token.Pos, fn value, args []value) val
 
 func callSSA(p *Path, caller *frame, callpos token.Pos, fn *ssa.Function, args []value, env []value) value {
 	info := p.eng.classify(fn)
+	if p.eng.lockset != nil {
+		p.eng.lockset.onCall(p, caller, fn)
+	}
 	for _, cs := range info.cond {
 		if p.tags[cs.tag] {
 			p.eng.noteFunc(cs.fn)
